@@ -51,7 +51,7 @@ CLAIMED = {
     "C04": {
         "category": "exploration",
         "text": "Bounded-exhaustive validity check of every object returned by all seven algorithms under both policies on the P-, O-, U-slices "
-                "(incl. 5-leaf chains x 3 families for the unordered solvers) and on multifurcating inputs (Schroeder shapes <=3x<=3 leaves; thorough also 4-leaf objects with one 3-ary polytomy) for the "
+                "(incl. 5-leaf chains x 3 families for the unordered solvers; family names spelled, depending on the input, as letters, as prefix-related names or as names equal up to leading zeros) and on multifurcating inputs (Schroeder shapes <=3x<=3 leaves; thorough also 4-leaf objects with one 3-ary polytomy) for the "
                 "extended solvers, with a cost menu that includes sloss=0, all-zero and incoherent vectors; the structural predicate is evaluated "
                 "on the trees each solution refers to; on refinements the cost must also be finite under the REQUESTED unit costs (hgt = inf included); "
                 "a polytomy session slice solves one multifurcating input object again after in-place updates of its leaf data and costs; "
@@ -64,7 +64,7 @@ CLAIMED = {
         "category": "exploration",
         "text": "Bounded-exhaustive comparison of the ALL result with the complete optimal set of the reference models, key for key, "
                 "and of ANY with membership in it, for thl/exh (quick P4x3, thorough P4x4 + 5x<=3) and the four labelled solvers "
-                "(quick O3x2x3, U3x3x3, U4x2x2, 5-leaf chains x 1 species x 3 families; thorough O3x3x3, O4x3x2, U4x3x2, U4x2x4, U5x2x2) on a tie-rich coherent cost menu (free segmental losses included); quick also every tuple of subsequences of abcd (four families) on 3 object leaves.",
+                "(quick O3x2x3, U3x3x3, U4x2x2, 5-leaf chains x 1 species x 3 families; thorough O3x3x3, O4x3x2, U4x3x2, U4x2x4, U5x2x2) on a tie-rich coherent cost menu (free segmental losses included); quick also every tuple of subsequences of abcd (four families) on 3 object leaves and 5-leaf chains over {a, c, d, bd, abcd}.",
         "design_ref": "6 (C05)",
         "note": "Trusted: the reference models' optimal sets (brute force / Bellman, cross-validated). Coherent region only; "
                 "F-COHERENCE set witnesses replayed from known_findings.json.",
@@ -113,7 +113,7 @@ CLAIMED = {
                 "menu and thl / ext_spfs / base_spfs / superdtl / base_uspfs, the ALL result is compared with the result on every transformation of a "
                 "finite menu (single-node child swaps, mirror, 3 node renamings, 2 family renamings, outgroup on either side, repetition on the same "
                 "object and on a fresh one, scaling x2/x3, each unit cost +1); plus a fixed corpus solved in fresh interpreters under "
-                "PYTHONHASHSEED 0..3 with byte-identical canonical output. Further quick slices: child-order transformations on every 4-leaf labelled object over a species cherry (2 families); the input solved after a pass through its dictionary form under vectors with a zero or infinite unit cost. Further transformations: every other algorithm of the package run first on the same input object, leaf dictionaries written in another order, "
+                "PYTHONHASHSEED 0..3 with byte-identical canonical output. Further quick slices: child-order transformations on every 4-leaf labelled object over a species cherry (2 families); the input solved after a pass through its dictionary form under vectors with a zero or infinite unit cost. Further transformations: every other algorithm of the package run first on the same input object, the input built with the constructor's default costs after a sibling default-cost input had its prices raised in place, leaf dictionaries written in another order, "
                 "children swapped in place on the live trees with a new LCA structure, prices doubled in place on the same input object.",
         "design_ref": "6 (C09), 7",
         "note": "No oracle needed (metamorphic relations). Object-address-dependent iteration order is not controllable; results compared as sets.",
@@ -138,7 +138,7 @@ CLAIMED = {
                 "(all subsets of <=3 object / <=2 species nodes on small trees, root and nested colours) and a float-infinite transfer cost; trees, "
                 "mappings, syntenies, flag, events, cost compared, and to_dict() of the copy reproduced verbatim on the listed fields; every object is "
                 "serialised a second time after an in-place edit of its trees and costs; multifurcating inputs (<= 4 / 5 leaves) for child order; "
-                "unordered labellings also typed as unsorted lists; a parent and child with the same colour; explicit zero costs.",
+                "unordered labellings also typed as unsorted lists; a parent and child with the same colour; explicit zero costs; every text is read a second time after the first copy was edited in place; ordered inputs also with a prescribed root order (an entry for the root in leaf_syntenies).",
         "design_ref": "6 (C11)",
         "note": "Premise: unique node names. The embedded input's leaf_syntenies of an output is outside the listed fields and not compared.",
         "technique": TECH_E2,
@@ -155,7 +155,7 @@ CLAIMED = {
                 "objects with one ternary node) for ext_spfs / superdtl: binary output trees, input clades and their names kept, new ancestors numbered "
                 "by the reference pre-order rule, parse-back cost = printed minimum, all contains any, draw accepts. Cost options include an "
                 "optimum needing > 6 significant digits, a fraction, a zero unit cost and (plain algorithms only) a speciation dearer than a duplication plus two losses; plain algorithms are also run on files that carry "
-                "syntenies; species names may contain underscores; 5-leaf trees for the numbering order.",
+                "syntenies; species names may contain underscores; every other synteny tuple spells its families with TeX- / Newick-special characters; 5-leaf trees for the numbering order.",
         "design_ref": "6 (C12)",
         "note": "Trusted: the in-process driver (conformance-checked against subprocess runs each run), the stub TeX measurer, ete3's Newick parser.",
         "technique": TECH_E2,
@@ -188,7 +188,7 @@ CLAIMED = {
     "C15": {
         "category": "exploration",
         "text": "Same reconciliations x every colouring of a menu (none, root, inner, every nested pair, explicit black inside / around a colour, leaf, two subtrees, three levels) with "
-                "labelling / naming scheme (underscores, backslashes) / orientation rotating: scanner for balanced braces, single picture, terminated "
+                "labelling / naming scheme (underscores, backslashes, leaf names with an empty index) / orientation / top-down or bottom-up mapping dicts rotating: scanner for balanced braces, single picture, terminated "
                 "\\path/\\node statements, colours defined before use; colour of every event node and loss marker (layout and text) = nearest coloured "
                 "ancestor-or-self; escaped names; synteny labels list the node's families (also multi-character families whose lists concatenate to the same text), omitted iff equal to the parent's. Wrapper: all word lists "
                 "of <=5 (6) words over 4 (5) lengths x widths 1..30 and syntenies of <=12 families against greedy wrapping.",
@@ -212,7 +212,7 @@ CLAIMED = {
         "text": "Exhaustive over all rooted plane trees of any arity with <= 11 (quick) / 12 (thorough) nodes built through the ete3 API (plus edit "
                 "histories: structure built, the same tree object edited by every subtree move / leaf addition / removal, rebuilt; <= 7 / 8 nodes; structures of a tree and of its subtrees alive together; nameless nodes): every "
                 "node, ordered pair and ordered triple for lca / is_ancestor_of / is_strict_ancestor_of / is_comparable / level / distance against "
-                "parent-chain definitions; every array of length <= 11 / 13 over {0,1,2} x every (start, stop) pair for RangeMinQuery.",
+                "parent-chain definitions; every array of length <= 11 / 13 over {0,1,2} x every (start, stop) pair for RangeMinQuery, up to length 8 also with elements that support `<` only.",
         "design_ref": "6 (C17)",
         "note": "Trusted: ete3 parent/children pointers, refmodel/trees.py. Trees beyond 12 nodes and arrays beyond length 13 are not explored.",
         "technique": TECH_E2,
@@ -221,7 +221,7 @@ CLAIMED = {
         "category": "exploration",
         "text": "Exhaustive over all (child != 0, parent) mask pairs up to 11 (quick) / 13 (thorough) bits x both end modes against an independent "
                 "run counter, and all sequences of distinct elements up to length 11 / 13 with all their subsequences (six element alphabets: ints, strings, "
-                "unhashable lists, elements equal under str() but distinct under ==, elements with one common hash and text) for the mask <-> subsequence round trip, also with subsequence and parent given as different kinds of sequence (tuple / list / str / range); one mutable parent sequence rearranged in place through every permutation (<= 6 / 7 elements).",
+                "unhashable lists, elements equal under str() but distinct under ==, elements with one common hash and text) for the mask <-> subsequence round trip, also with subsequence and parent given as different kinds of sequence (tuple / list / str / range); a str child against parents holding concatenations of earlier elements, deque parents (no slicing); one mutable parent sequence rearranged in place through every permutation (<= 6 / 7 elements).",
         "design_ref": "6 (C18)",
         "note": "Trusted: refmodel/graphs.py:lost_runs_mask.",
         "technique": TECH_E2,
@@ -230,7 +230,7 @@ CLAIMED = {
         "category": "exploration",
         "text": "Exhaustive over all 66 067 digraphs on <= 4 vertices (self-loops included), loop-free digraphs on 5 vertices (<= 5 edges quick, "
                 "all 2^20 thorough), loop-free digraphs on 6-7 vertices with <= 2 (3) edges (up to 5040 orderings each) and the precedence graphs the ordered solver builds for every tuple of <= 3 (4) leaf syntenies: toposort_all "
-                "= permutation filter as a multiset, toposort returns a member iff one exists; the null graph; one graph object (shared successor "
+                "= permutation filter as a multiset, toposort returns a member iff one exists; the null graph; on <= 4 vertices also labels that `<` orders only partially (frozensets) and a None / 0 / '' / () mix; one graph object (shared successor "
                 "sets) used by toposort, toposort_all and toposort again without being modified.",
         "design_ref": "6 (C19)",
         "note": "Trusted: refmodel/graphs.py:topo_orders (permutation filtering).",
@@ -242,7 +242,7 @@ CLAIMED = {
                 "fixpoint thorough), real (parent, rank, groups) paired with the naive partition, find/len/to_list/unite result/binary() checked in "
                 "every state, each transition replayed on a fresh object. Triples/supertrees: exhaustive over all labelled binary trees on <= 5 (6) "
                 "leaves, all 4096 subsets of the triples on 4 leaves (and <= 3 triples on 5 leaves), all pairs of binary trees on overlapping leaf "
-                "sets within 5 labels (also passed as a generator / map object); ancestors unnamed, freshly named, same-labelled or named like a leaf.",
+                "sets within 5 labels (also passed as a generator / map object); ancestors unnamed, freshly named, same-labelled or named like a leaf; leaf labels with Newick-special characters (tree built through the API); every returned ete3 tree is checked for consistent parent / child links and for sharing no node object with another result.",
         "design_ref": "6 (C20), 3 (E1 explorer)",
         "note": "Trusted: refmodel/graphs.py (clade-based display test, two-block coarsenings), ete3.",
         "technique": TECH_E1 + "; bounded-exhaustive enumeration of trees and triple sets for the triple routines",
